@@ -189,6 +189,8 @@ RecAttrs(S, p) == ItemsOf(S, CallsFor(S, {"for_a"}, p, TRUE))
 RecRoots(S) == {PathStrOfTree(S.derive_calls[i].path) : i \in {j \in DOMAIN S.derive_calls :
                    S.derive_calls[j].op \in {"for_d", "for_a"} /\ S.derive_calls[j].recursive}}
 
+RootSegs(S, r) == LET i == CHOOSE j \in DOMAIN S.derive_calls : S.derive_calls[j].op \in {"for_d", "for_a"} /\ PathStrOfTree(S.derive_calls[j].path) = r
+                  IN S.derive_calls[i].path.segs
 \* flatten_recursive_derives: the first registry id carrying a root path is flattened from
 FirstIdOfPathStr(reg, p) ==
   LET ids == {i \in Ids(reg) : Len(Ty(reg, i).path) > 0 /\ PathStr(Ty(reg, i).path) = p} IN
